@@ -514,3 +514,30 @@ VARIANTS["C14"] = [
         "    idx_all = np.minimum(idx_all, arr_peak.shape[1] - 1)\n")], (), ""),
     V("twin-clamp-gt-minus-one", "twin", WF, [("    idx_over = np.where(idx_all >= arr_peak.shape[1])[0]\n", "    idx_over = np.where(idx_all > arr_peak.shape[1] - 1)[0]\n")], (), ""),
 ]
+
+# ------------------------------------------------------------------------------------------------ C06
+VARIANTS["C06"] = [
+    V("stride-one-taper", "fire", VO, [("            first_s += NBATCH - SAMPLES_TAPER * 2\n", "            first_s += NBATCH - SAMPLES_TAPER\n")], ("D1",), "1024 samples lost at each seam"),
+    V("init-stride-mismatch", "fire", VO, [("        first_s = (NBATCH - SAMPLES_TAPER * 2) * n_batch\n", "        first_s = NBATCH * n_batch\n")], ("D1",), "workers > 0 start off the grid"),
+    V("seek-without-taper", "fire", VO, [("            fid.seek(offset + ((first_s + SAMPLES_TAPER) * nc_out * nbytes))\n", "            fid.seek(offset + (first_s * nc_out * nbytes))\n")], ("D1",),
+      "only with more than one worker: their output lands 1024 samples early"),
+    V("seek-nc-wrong", "fire", VO, [("            fid.seek(offset + ((first_s + SAMPLES_TAPER) * nc_out * nbytes))\n", "            fid.seek(offset + ((first_s + SAMPLES_TAPER) * ncv * nbytes))\n")], ("D1",), ""),
+    V("kept-range-short", "fire", VO, [("            ind2save = [SAMPLES_TAPER, NBATCH - SAMPLES_TAPER]\n", "            ind2save = [SAMPLES_TAPER, NBATCH - SAMPLES_TAPER - 1]\n")], ("D1",), ""),
+    V("last-batch-not-extended", "fire", VO, [("                chunk = fourier.fshift(chunk, s=h[\"sample_shift\"])\n                ind2save[1] = NBATCH\n", "                chunk = fourier.fshift(chunk, s=h[\"sample_shift\"])\n")], ("D1",), ""),
+    V("n-batch-divisor-stride", "fire", VO, [("        n_batch = int(np.ceil(i_chunk * CHUNK_SIZE / NBATCH))\n", "        n_batch = int(np.ceil(i_chunk * CHUNK_SIZE / (NBATCH - SAMPLES_TAPER * 2)))\n")], ("D1",),
+      "a batch between two workers can be skipped (needs a particular length / worker count)"),
+    V("stop-strict", "fire", VO, [("            if last_s >= max_s:\n", "            if last_s > max_s + NBATCH:\n")], ("D1",), ""),
+    V("nbytes-literal", "fire", VO, [("    nbytes = dtype(1).nbytes\n", "    nbytes = 2\n")], ("D1",), "float32 output seeks with int16 item size"),
+    V("mute-after-sync", "fire", VO, [(
+        "            chunk = chunk * mute_saturation[np.newaxis, :]\n            chunk = np.r_[chunk, _sr[first_s:last_s, ncv:].T].T\n",
+        "            chunk = np.r_[chunk, _sr[first_s:last_s, ncv:].T].T\n            chunk = chunk * mute_saturation[:, np.newaxis]\n")], ("D2",), "regression of F6"),
+    V("whiten-all-columns", "fire", VO, [("                chunk[:, :ncv] = np.dot(chunk[:, :ncv], wrot)\n", "                chunk = np.dot(chunk, np.pad(wrot, ((0, chunk.shape[1] - ncv), (0, chunk.shape[1] - ncv))))\n")], ("D2",), ""),
+    V("sync-rows-shifted", "fire", VO, [("chunk = np.r_[chunk, _sr[first_s:last_s, ncv:].T].T", "chunk = np.r_[chunk, _sr[first_s + 1:last_s + 1, ncv:].T].T")], ("D2", "D1"), ""),
+    V("saturation-bounds", "fire", VO, [("            _saturation[first_s:last_s] = saturated_samples\n", "            _saturation[first_s + SAMPLES_TAPER:last_s] = saturated_samples[SAMPLES_TAPER:]\n")], ("D3",), ""),
+    V("range-one-less", "fire", VO, [("        delayed(my_function)(i, nprocesses) for i in range(nprocesses)\n", "        delayed(my_function)(i, nprocesses) for i in range(nprocesses - 1)\n")], ("D4",), ""),
+    V("nchunk-wrong", "fire", VO, [("        delayed(my_function)(i, nprocesses) for i in range(nprocesses)\n", "        delayed(my_function)(i, nprocesses + 1) for i in range(nprocesses)\n")], ("D4",),
+      "no worker believes it is the last: the tail after nprocesses*CHUNK_SIZE is never written"),
+    V("append-truncates", "fire", VO, [("    else:\n        offset = 0\n        open(output_file, \"wb\").close()\n", "    else:\n        offset = 0\n    open(output_file, \"wb\").close()\n")], ("D4",), ""),
+    V("twin-stride-var", "twin", VO, [("            first_s += NBATCH - SAMPLES_TAPER * 2\n", "            step = NBATCH - 2 * SAMPLES_TAPER\n            first_s = first_s + step\n")], (), ""),
+    V("twin-intnorm-inplace", "twin", VO, [("            chunk = chunk[slice(*ind2save), :] * intnorm\n", "            chunk = chunk[slice(*ind2save), :]\n            chunk = chunk * intnorm\n")], (), ""),
+]
